@@ -90,6 +90,9 @@ func (g *Generator) validateRequest(req *plugin.Request) error {
 }
 
 func (g *Generator) preparePlugins(be backend.Backend, pds []*plugin.Desc) error {
+	// Generate may be called once per target language: start from an empty list so
+	// that g.plugins[i] always corresponds to pds[i].
+	g.plugins = g.plugins[:0]
 	for _, d := range pds {
 		// TODO(lushaojie): check d
 
